@@ -866,7 +866,214 @@ async def injected_call_in_a_closed_context_is_the_explicit_call():
     return ok, f"{out}"
 
 
-SCENARIOS = {f.__name__: f for f in (optional_injection_is_the_optional_lookup, waiting_component_gets_the_async_factorys_product,
+async def rejected_add_registers_no_callback():
+    """C01 (and C03): exactly the callbacks that were REGISTERED run at teardown: an add_resource() that is refused
+    (ResourceConflict) leaves no teardown callback behind -- however often the caller retries"""
+    from asphalt.core import ResourceConflict
+    ran = []
+    async with Context() as ctx:
+        ctx.add_resource(A("first"), teardown_callback=lambda: ran.append("first"))
+        for i in range(3):
+            try:
+                ctx.add_resource(A(f"again{i}"), teardown_callback=lambda i=i: ran.append(f"ghost{i}"))
+                ran.append("accepted")
+            except ResourceConflict:
+                pass
+        ctx.add_teardown_callback(lambda: ran.append("last"))
+    return ran == ["last", "first"], f"ran at teardown: {ran}"
+
+
+async def wait_finished_means_completely_finished():
+    """C09: wait_finished() returns once the task has ENDED: its own context has been torn down (also when that
+    takes time), the handler has been consulted and the handle is no longer among all_task_handles()"""
+    out = []
+    for ending in ("return", "raise", "cancel"):
+        seen = {}
+        handled = []
+
+        def handler(exc):
+            handled.append(type(exc).__name__)
+            return True
+        async with Context() as ctx:
+            tf = await ctx.start_background_task_factory(exception_handler=handler)
+            cleaned = []
+
+            async def task():
+                async def slow_cleanup():
+                    with anyio.CancelScope(shield=True):
+                        await anyio.sleep(0.05)
+                    cleaned.append(1)
+                current_context().add_teardown_callback(slow_cleanup)
+                if ending == "raise":
+                    raise ValueError("task")
+                if ending == "cancel":
+                    await anyio.sleep(5)
+            h = await tf.start_task(task)
+
+            async def waiter():
+                await h.wait_finished()
+                seen.update(cleaned=list(cleaned), listed=h in tf.all_task_handles(), handled=list(handled))
+            async with anyio.create_task_group() as tg:
+                tg.start_soon(waiter)
+                await anyio.sleep(0.01)
+                if ending == "cancel":
+                    h.cancel()
+        want_handled = ["ValueError"] if ending == "raise" else []
+        out.append((ending, seen.get("cleaned") == [1], seen.get("listed") is False, seen.get("handled") == want_handled))
+    return all(all(o[1:]) for o in out), f"(ending, own context torn down, handle gone, handler consulted) = {out}"
+
+
+async def dead_iterator_inside_its_block_disturbs_nobody():
+    """C10: a subscriber whose iteration has died (its __anext__ was cancelled by a deadline, or it closed the
+    iterator) but which is still inside its `async with stream_events()` block: dispatch does not raise and the
+    subscribers that came later get the event"""
+    from asphalt.core import Event, Signal
+
+    class Src:
+        sig = Signal(Event)
+    out = []
+    for how in ("cancelled-next", "aclose"):
+        src = Src()
+        got = []
+        async with src.sig.stream_events() as dying:
+            it = dying.__aiter__()
+            if how == "cancelled-next":
+                with anyio.move_on_after(0.01):
+                    await it.__anext__()
+            else:
+                await it.aclose()
+            async with src.sig.stream_events() as later:
+                try:
+                    src.sig.dispatch(Event())
+                    raised = None
+                except BaseException as e:  # noqa
+                    raised = type(e).__name__
+                with anyio.move_on_after(0.3):
+                    async for ev in later:
+                        got.append(ev)
+                        break
+        out.append((how, raised, len(got)))
+    return all(o[1] is None and o[2] == 1 for o in out), f"(how the first iterator died, dispatch raised, later subscriber received) = {out}"
+
+
+async def racing_lookups_generate_once():
+    """C04: lookups of one pair that race in ONE context generate once -- with a synchronous factory under the
+    asynchronous lookup too, and when the generating lookup is CANCELLED the others take over instead of
+    waiting for ever"""
+    from asphalt.core import get_resource_nowait
+    out = {}
+    calls = []
+    async with Context() as ctx:
+        def make() -> A:
+            calls.append(1)
+            return A(len(calls))
+        ctx.add_resource_factory(make)
+        got = []
+
+        async def look():
+            got.append(await ctx.get_resource(A))
+        async with anyio.create_task_group() as tg:
+            for _ in range(3):
+                tg.start_soon(look)
+        got.append(ctx.get_resource_nowait(A))
+        out["sync-factory"] = (len(calls), len({id(x) for x in got}))
+    calls2 = []
+    async with Context() as ctx:
+        async def slow() -> B:
+            calls2.append(1)
+            await anyio.sleep(0.05)
+            return B(len(calls2))
+        ctx.add_resource_factory(slow)
+        got2 = []
+
+        async def first():
+            with anyio.move_on_after(0.01):
+                await ctx.get_resource(B)          # cancelled while the factory is running
+
+        async def second():
+            await anyio.sleep(0.005)
+            with anyio.fail_after(2):
+                got2.append(await ctx.get_resource(B))
+        try:
+            async with anyio.create_task_group() as tg:
+                tg.start_soon(first)
+                tg.start_soon(second)
+            with anyio.fail_after(2):
+                got2.append(await ctx.get_resource(B))
+            out["cancelled-generation"] = (len(got2), len({id(x) for x in got2}))
+        except BaseException as e:  # noqa
+            out["cancelled-generation"] = ("failed", [type(x).__name__ for x in _leaves(e)])
+    ok = out["sync-factory"] == (1, 1) and out["cancelled-generation"] == (2, 1)
+    return ok, f"sync factory under racing async lookups: (calls, distinct objects) = {out['sync-factory']}; after a cancelled generation: (lookups answered, distinct objects) = {out['cancelled-generation']}"
+
+
+async def failing_factory_leaves_the_current_context_alone():
+    """C02 (and C12): a lookup made on ANOTHER context (the parent, by reference) whose factory raises changes
+    nothing about which context is current: what is added afterwards through the shortcuts lands in the context
+    the task is in, and lookups see that context's set"""
+    from asphalt.core import add_resource, get_resource_nowait
+    out = {}
+    async with Context() as app:
+        def broken() -> A:
+            raise LookupError("no configuration")
+        app.add_resource_factory(broken)
+        async with Context() as request:
+            request.add_resource(B("req"))
+            for how in ("nowait", "async"):
+                try:
+                    if how == "nowait":
+                        app.get_resource_nowait(A)
+                    else:
+                        await app.get_resource(A)
+                except LookupError:
+                    pass
+            out["current"] = current_context() is request
+            add_resource(A("late"), "late")
+            out["late_in_request"] = request.get_resource_nowait(A, "late", optional=True) is not None
+            out["late_in_app"] = app.get_resource_nowait(A, "late", optional=True) is not None
+            out["sees_request"] = get_resource_nowait(B, optional=True) is not None
+    want = {"current": True, "late_in_request": True, "late_in_app": False, "sees_request": True}
+    return out == want, f"{out}"
+
+
+async def nested_start_component_keeps_its_own_timeout():
+    """C07: a start_component() call made from inside a component's start() has its own timeout: when the sub-tree
+    stalls, TimeoutError is raised there after THAT timeout, whatever the outer call's timeout is"""
+    from asphalt.core import Component, ComponentStartError, start_component
+
+    class Stalls(Component):
+        async def start(self):
+            await anyio.sleep(30)
+    seen = {}
+
+    class Outer(Component):
+        async def start(self):
+            t0 = anyio.current_time()
+            try:
+                await start_component(Stalls, {}, timeout=0.2)
+                seen["inner"] = "returned"
+            except TimeoutError:
+                seen["inner"] = "TimeoutError"
+            except BaseException as e:  # noqa
+                seen["inner"] = type(e).__name__
+                raise
+            finally:
+                seen["after"] = round(anyio.current_time() - t0, 1)
+    async with Context():
+        try:
+            with anyio.fail_after(5):
+                await start_component(Outer, {}, timeout=None)
+            seen["outer"] = "returned"
+        except BaseException as e:  # noqa
+            seen["outer"] = type(e).__name__
+    ok = seen.get("inner") == "TimeoutError" and seen.get("outer") == "returned" and seen.get("after", 9) < 2
+    return ok, f"{seen}"
+
+
+SCENARIOS = {f.__name__: f for f in (optional_injection_is_the_optional_lookup, rejected_add_registers_no_callback,
+                                     wait_finished_means_completely_finished, dead_iterator_inside_its_block_disturbs_nobody,
+                                     racing_lookups_generate_once, failing_factory_leaves_the_current_context_alone,
+                                     nested_start_component_keeps_its_own_timeout, waiting_component_gets_the_async_factorys_product,
                                      factory_error_fails_the_component, timeout_is_a_timeouterror_wherever_the_component_hangs,
                                      unaccepted_task_exception_and_the_blocks_own_both_come_out, one_stream_over_equal_owners,
                                      class_change_keeps_the_channel_and_class_level_use_is_refused, wrapper_kind_decides_the_lookup,
